@@ -104,3 +104,9 @@ Theorem C02_level0_every_schedule_returns_partial :
   N.of_nat (length data) + 259 < 2 ^ 40 ->
   exists result, drive (comp_new flags wb) data sched [] 0 = Ret result.
 Proof. exact level0_every_schedule_returns. Qed.
+
+(* the tie of the compressor models to the source also covers their constants: every flag / flush / status / state / size
+   constant the hand-written models spell out equals the constant regenerated from /repo on this run *)
+From MZ.proofs Require ModelConstants.
+Theorem C02_model_constants_are_source_constants : ModelConstants.deflate_constants_are_source_constants_statement.
+Proof. exact ModelConstants.deflate_constants_are_source_constants. Qed.
